@@ -355,6 +355,8 @@ pub struct Runner<W: Write> {
     pub events: u64,
     pub panics: u64,
     pub skipped: u64,
+    // extra fields (shape / context labels of a hostile input) merged into the next emitted event
+    pub extra: Option<Value>,
 }
 
 impl<W: Write> Runner<W> {
@@ -363,6 +365,13 @@ impl<W: Write> Runner<W> {
         self.events += 1;
         v["run"] = json!(self.run);
         v["i"] = json!(self.i);
+        if let Some(x) = self.extra.take() {
+            if let Some(m) = x.as_object() {
+                for (k, val) in m {
+                    v[k.as_str()] = val.clone();
+                }
+            }
+        }
         if v.get("panic").is_none() {
             v["panic"] = json!(false);
         }
@@ -487,6 +496,7 @@ impl<W: Write> Runner<W> {
                 let to = Self::side_of(st, "to");
                 let bytes = unhex(gets(st, "hex"));
                 let desc = w.describe(&bytes);
+                self.extra = Some(json!({"shape": gets(st, "shape"), "ctx": gets(st, "ctx"), "hexlen": bytes.len()}));
                 self.do_deliver(w, conn, to, &bytes, desc, "hostile", 0, 0, 0);
             }
             "api" => {
@@ -764,8 +774,9 @@ impl<W: Write> Runner<W> {
         let st1 = w.proj(conn, to);
         // direction of the stream this packet belongs to
         let dir = if to == 'S' { "cs" } else { "sc" };
+        let pmsg = r.as_ref().err().cloned().unwrap_or_default();
         self.emit(json!({"ev":"deliver","conn":conn,"side":to.to_string(),"dir":dir,"label":label,"fl":fl,"ix":ix,"nth":nth,"p":desc,
-            "st0":st0,"st1":st1,"panic":r.is_err()}));
+            "st0":st0,"st1":st1,"panic":r.is_err(),"pmsg":pmsg}));
         if r.is_err() {
             self.panics += 1;
             w.dead = true;
